@@ -580,6 +580,16 @@ def _collision_free(E, alg, data, out):
         else:
             same_in = False
         same_out = bytes_eq(out, out2)
+        if same_in is not False and same_out is not True:
+            # functional consistency between a concretely computed digest and an uninterpreted application
+            # (or two applications): equal inputs -> equal outputs
+            c2 = b_or(b_not(same_in), same_out)
+            if c2 is False:
+                raise Infeasible()
+            if c2 is not True:
+                E.solver.add(c2)
+                E.pc.append(c2)
+                E.model = None
         if same_out is False:
             continue
         c = b_or(same_in, b_not(same_out))
